@@ -175,8 +175,22 @@ def main(argv=None):
         assumptions.update(ur["assumptions"])
         hints.update(ur["hints"])
         if ur["undecided_reason"]:
-            (internal if ur["undecided_reason"].startswith("internal") else undecided).append(
-                "%s[%s]: %s" % (c.cid, ov, ur["undecided_reason"]))
+            probe = getattr(c, "undecided_probe", None)
+            decided = False
+            if probe and not ur["undecided_reason"].startswith("internal"):
+                # the function left the supported subset (no obligation could be generated): the contract's independent
+                # concrete oracle is asked instead; only a failing input found on the real code counts
+                key = (c.cid, json.dumps(probe, sort_keys=True))
+                if key not in probe_cache:
+                    probe_cache[key] = replayer.run_harness(probe["harness"], dict(probe, obligation=c.cid, seed=seed), timeout=300)
+                if probe_cache[key].get("reproduced"):
+                    failed.append((c, ov, dict(name="%s[%s]/whole-contract (function outside the verifier's subset: %s)" % (c.cid, ov, ur["undecided_reason"][:80]),
+                                               status="failed", kind="post", backend="concrete-oracle", secs=0.0, props=[prop], meta={}, model=None,
+                                               reason="decided by the concrete oracle of the contract", replay_done=dict(probe_cache[key], case=probe))))
+                    decided = True
+            if not decided:
+                (internal if ur["undecided_reason"].startswith("internal") else undecided).append(
+                    "%s[%s]: %s" % (c.cid, ov, ur["undecided_reason"]))
         for r in ur["results"]:
             if prop not in r["props"]:
                 continue
